@@ -880,6 +880,22 @@ def r13_5(prog, out):
                 engine = str(o.data) if o.kind == "const" else repr(o)
         return order, engine
 
+    # fixed width: what is base64-encoded is the whole byte array of the offset.  A shortened form (`&bytes[..significant]`,
+    # leading / trailing zero bytes dropped) is only right if shortening and padding agree for every value -- byte values, not
+    # structure; the token `""` also means `no more pages`.
+    ebi = prog.info(enc)
+    sle = Slicer(prog)
+    for bb, t in ebi.calls(lambda c: c.path.split("::")[-1] == "encode"):
+        if len(t.args) < 2:
+            continue
+        names = {c.split("::")[-1] for c in sle.of(enc, t.args[1]).calls}
+        cut = sorted(names & {"index", "position", "rposition", "take", "take_while", "skip", "skip_while", "split", "trim_ascii", "trim_ascii_start", "trim_ascii_end",
+                              "strip_prefix", "strip_suffix", "split_at", "split_first", "split_last", "leading_zeros", "trailing_zeros", "truncate", "drain", "get"})
+        if cut:
+            out.violation("codec:fixed-width", ebi.loc(bb), "the token is the base64 of a *shortened* byte string (%s): offsets whose bytes contain the cut-off pattern "
+                          "encode to a token that decodes to another offset, or to the empty token that ends the listing" % cut)
+        else:
+            out.holds("codec:fixed-width", ebi.loc(bb), "the whole fixed-width byte array is encoded")
     eo, ee = facts_of(enc)
     do, de = facts_of(dec)
     key = "codec"
